@@ -7,6 +7,7 @@ from .. import casing, common as c, corpus, l2, ovbins, translate
 THEOREMS = [("Sylvia.Thm.C12", "C12." + t) for t in
             ["lower_outcome", "step_equiv", "history_equiv", "failed_step_keeps_state", "handler_error_surfaces",
              "inst_defaults", "inst_last_writer_wins", "inst_setters_commute", "inst_shape", "exec_shape", "demo_wf"]] + \
+           [("Sylvia.Thm.C12WF", "C12.progWFb_sound")] + \
            [("Sylvia.Thm.Obl.Multitest", "Obl." + t) for t in ["mt_no_unwrapping_downcast", "mt_proxy_ops", "mt_inst_defaults", "mt_inst_setters", "mt_forms", "mt_forms_all",
                                                                "mt_contract_bodies"]] + \
            [("Sylvia.Thm.Obl.Tables", "Obl.extraction_complete"), ("Sylvia.Thm.C02", "C02.dispatch_exact"), ("Sylvia.Thm.C02", "C02.dispatch_exact_struct"),
@@ -212,6 +213,13 @@ def run(ctx):
             H, R, K = gen_history(rng, p, rng.choice([6, 10, 16, 24]))
             hist.setdefault(p["id"], []).append((H, R, K))
     by_id = {p["id"]: p for p in progs}
+    # 0. the hypothesis of the refinement theorems (ProgWF, through its executable, proved-sound form) holds of every corpus program
+    _, wf_ops, wf_index = l2.run_both(ctx, "wf", progs, {p["id"]: ["wf"] for p in progs})
+    wf_out = c.run_driver(wf_ops)
+    not_wf = [ix[0] for o, ix in zip(wf_out, wf_index) if ix is not None and o != "true"]
+    if not_wf:
+        ctx.obligation_failed("hypothesis:ProgWF", "the well-formedness hypothesis of history_equiv does not hold of corpus program(s) %s: the theorem says nothing about them" % not_wf[:5])
+    ctx.cov["programs_satisfying_theorem_hypotheses"] = len(progs) - len(not_wf)
     # 1. proxies on chain A, and the model of the proxies
     ops_p = {pid: ["mtp " + ";".join(H) for H, R, K in hs] for pid, hs in hist.items()}
     rows_p, _ = l2.execute(ctx, "L2-multitest-proxies", progs, exes, ops_p)
